@@ -40,3 +40,30 @@ func TestWitnessOrderDependenceErrorVsNoMatch(t *testing.T) {
 		t.Fatalf("outcome depends on map iteration order: %v", o)
 	}
 }
+
+// Witness for match.(*Matcher).match#canon-stable:fa[i] / xs[...] (C09): a
+// number that is not a float64 (what goja exports for integers) inside an
+// array matches differently before and after a JSON round trip.
+func TestWitnessIntegerInArray(t *testing.T) {
+	pattern := map[string]interface{}{"x": []interface{}{1.0}}
+	mem := map[string]interface{}{"x": []interface{}{int64(1)}}
+	a, err := Match(pattern, mem, NewBindings())
+	if err != nil {
+		t.Fatal(err)
+	}
+	js, _ := json.Marshal(mem)
+	var reloaded interface{}
+	json.Unmarshal(js, &reloaded)
+	b, err := Match(pattern, reloaded, NewBindings())
+	if err != nil {
+		t.Fatal(err)
+	}
+	if len(a) != len(b) {
+		t.Fatalf("in-memory message %#v gives %d matches, the same message reloaded from JSON gives %d", mem, len(a), len(b))
+	}
+	pat2 := map[string]interface{}{"x": []interface{}{int64(1)}}
+	c, _ := Match(pat2, reloaded, NewBindings())
+	if len(c) != 1 {
+		t.Fatalf("pattern with an integer array member does not match: %d", len(c))
+	}
+}
